@@ -10,13 +10,13 @@ from lib.coqterm import cbool, cbytes, clist, cnat, copt, hx, unhx
 ID = "C18"
 QUICK_N = 2400
 THOROUGH_N = 40000
-SHARD = 2500
+SHARD = 800
 COQ_PRELUDE = "From MV Require Import Model.AlpnPrelude.\nOpen Scope N_scope.\n"
 TRANSLATORS = ["alpn_select"]
 ALLOWED_AXIOMS = []
 RULE = ("Both tiers: the EXHAUSTIVE class sweep (every offer list of length <= 4 over the 6 classes h2, h3, http/1.1, "
         "http/1.0, http/0.9, unknown(h2c) = 1555 lists x server_alpn in {None, empty, 6 classes} x client_alpn in {None, "
-        "6 classes} x http2 = 174160 direct calls of the real alpn_select_callback with a stub connection) plus the real "
+        "6 classes} x http2 = 174160 direct calls of the real alpn_select_callback with a stub connection, grouped as 3110 row cases of 56 calls each) plus the real "
         "tls_start_server on all 1555 x 2 (offers, http2) pairs.  Then n random cases: 45% direct callback calls over a "
         "token dictionary (case variants, prefixes/extensions of the known names, empty string, NUL, random bytes; "
         "server_alpn drawn from the reachable set 60% of the time), 20% tls_start_server with preset/None/empty "
@@ -99,10 +99,8 @@ def gen(rng, n, tier):
         for h in (True, False):
             out.append({"k": "u", "pre": None, "pk": "none", "o": [hx(CLASSES[i]) for i in o], "h": h})
     for o in lists:
-        for s in range(8):
-            for c in range(7):
-                for h in (True, False):
-                    out.append({"k": "k", "o": o, "s": s, "c": c, "h": h})
+        for h in (True, False):
+            out.append({"k": "kr", "o": o, "h": h})  # one row = all 8 x 7 (server_alpn, client_alpn) combinations
     for _ in range(n):
         r = rng.random()
         h = rng.chance(0.5)
@@ -284,8 +282,33 @@ def _gparts(case):
             None if case["c"] is None else unhx(case["c"]))
 
 
+COMBOS = [(s, c) for s in range(8) for c in range(7)]  # same order as Corr/C18.v combos
+
+
+def _code(r):
+    if r["t"] == "no":
+        return 0
+    if r["t"] == "none":
+        return 7
+    if r["t"] == "sel" and unhx(r["p"]) in CLASSES:
+        return 1 + CLASSES.index(unhx(r["p"]))
+    return 9
+
+
+def _uncode(code):
+    return {"t": "no"} if code == 0 else {"t": "none"} if code == 7 else \
+        {"t": "sel", "p": hx(CLASSES[code - 1])} if 1 <= code <= 6 else {"t": "weird", "repr": "?"}
+
+
 def run_impl(case):
     k = case["k"]
+    if k == "kr":
+        offers = [CLASSES[i] for i in case["o"]]
+        res = []
+        for s, c in COMBOS:
+            _, sv, cv = _kparts({"o": case["o"], "s": s, "c": c})
+            res.append(_code(_call(offers, sv, cv, case["h"])))
+        return {"res": res, "up": _hexlist(_upstream_offers(offers, case["h"]))}
     if k in ("k", "g"):
         offers, s, c = _kparts(case) if k == "k" else _gparts(case)
         return {"res": _call(offers, s, c, case["h"]), "up": _hexlist(_upstream_offers(offers, case["h"]))}
@@ -316,18 +339,11 @@ def _cres(r):
 
 def coq_case(case, obs):
     k = case["k"]
-    if k == "k":
-        r = obs["res"]
-        if r["t"] == "no":
-            code = 0
-        elif r["t"] == "none":
-            code = 7
-        elif r["t"] == "sel" and unhx(r["p"]) in CLASSES:
-            code = 1 + CLASSES.index(unhx(r["p"]))
-        else:
-            code = 9
+    if k in ("k", "kr"):
         o = "[" + ";".join(str(i) for i in case["o"]) + "]" if case["o"] else "(@nil N)"
-        return f"K {o} {case['s']} {case['c']} {cbool(case['h'])} {code}"
+        if k == "kr":
+            return f"KR {o} {cbool(case['h'])} [{';'.join(str(x) for x in obs['res'])}]"
+        return f"K {o} {case['s']} {case['c']} {cbool(case['h'])} {_code(obs['res'])}"
     if k == "g":
         return f"G {_clb(case['o'])} {_cob(case['s'])} {_cob(case['c'])} {cbool(case['h'])} {_cres(obs['res'])}"
     if k == "u":
@@ -364,6 +380,15 @@ def _clauses(offers, s, c, h, up, got, label):
 
 def oracle(case, obs):
     k = case["k"]
+    if k == "kr":
+        v, seen = [], set()
+        for (s, c), code in zip(COMBOS, obs["res"]):
+            for x in oracle({"k": "k", "o": case["o"], "s": s, "c": c, "h": case["h"]},
+                            {"res": _uncode(code), "up": obs["up"]}):
+                if x["key"] not in seen:
+                    seen.add(x["key"])
+                    v.append(x)
+        return v
     if k in ("k", "g"):
         offers, s, c = _kparts(case) if k == "k" else _gparts(case)
         r = obs["res"]
@@ -417,6 +442,10 @@ def classify(case, obs):
     k = case["k"]
     if k == "u":
         return ["upstream", "pre=" + ("falsy" if not case["pre"] else "set"), f"http2={int(case['h'])}"]
+    if k == "kr":
+        offers = [CLASSES[i] for i in case["o"]]
+        res = set("sel" if 1 <= x <= 6 else "no" if x == 0 else "bad" for x in obs["res"])
+        return ["sweep-row", f"http2={int(case['h'])}", f"len={len(offers)}"] + ["row-res:" + x for x in sorted(res)]
     if k in ("k", "g"):
         offers, s, c = _kparts(case) if k == "k" else _gparts(case)
         r = obs["res"]["t"]
